@@ -50,7 +50,7 @@ def cases(draw, max_leaves):
     if second["kind"] == "independent":
         second["spec"] = draw(shapes.shapes(min_leaves=n, max_leaves=n, max_arity=5, unifurcations=False))
     return {"spec": spec, "hist": hist, "rooted": rooted, "opts": opts, "second": second,
-            "encperm": draw(st.integers(0, 10 ** 6)),
+            "encperm": draw(st.integers(0, 10 ** 6)), "inner": draw(shapes.inner_taxa_picks()),
             "A": draw(st.integers(0, 2 ** 12 - 1)), "B": draw(st.integers(0, 2 ** 12 - 1))}
 
 
@@ -260,6 +260,8 @@ def check_case(ctx, case):
     n = rt1.n_leaves()
     ns, taxa, bits = shapes.build_namespace(case["hist"])
     t1 = shapes.build_tree(spec, ns, taxa, is_rooted=rooted_flag)
+    if shapes.add_inner_taxa(t1, ns, case.get("inner")):
+        ctx.cls("shape:taxon_on_internal_node")
     if case["hist"]["removed"] or case["hist"]["sort"]:
         ctx.cls("ns:sparse_or_reordered")
     low_ns = min(bits.values())
@@ -275,6 +277,7 @@ def check_case(ctx, case):
     rt2 = second_tree(rt1, case["second"], rooted)
     if rt2.leafset() == rt1.leafset():
         t2 = shapes.build_tree(spec_of(rt2), ns, taxa, is_rooted=rooted_flag)
+        shapes.add_inner_taxa(t2, ns, case.get("inner"))
         masks2, post2, enc2 = encode_and_check(ctx, t2, rt2, bits, rooted, opts, "T2")
         want_same = ref_same_topology(rt1, rt2, rooted)
         ctx.cls("pair:%s:%s" % (case["second"]["kind"], "same" if want_same else "different"))
